@@ -1355,8 +1355,10 @@ class SocketStream(abc.SocketStream):
                 and not self._protocol.is_at_eof
             ):
                 self._transport.resume_reading()
-                await self._protocol.read_event.wait()
-                self._transport.pause_reading()
+                try:
+                    await self._protocol.read_event.wait()
+                finally:
+                    self._transport.pause_reading()
             else:
                 await AsyncIOBackend.checkpoint()
 
@@ -1625,6 +1627,7 @@ class TCPSocketListener(abc.SocketListener):
         transport, protocol = await self._loop.connect_accepted_socket(
             StreamProtocol, client_sock
         )
+        transport.pause_reading()
         return SocketStream(transport, protocol)
 
     async def aclose(self) -> None:
@@ -3075,6 +3078,7 @@ class AsyncIOBackend(AsyncBackend):
         transport, protocol = await get_running_loop().create_connection(
             StreamProtocol, sock=sock
         )
+        transport.pause_reading()
         return SocketStream(transport, protocol)
 
     @classmethod
